@@ -311,6 +311,27 @@ def extract_unit(repo, unit_dir, out_path, variant=None):
             segs.replace(cut, cb2, '\n' + ta['replacement'] + '\n', 'rewrite', 'R8 tail abstraction')
             log.append({'rule': 'R8 tail abstraction: body after the anchor line replaced by an opaque call (arbitrary result)', 'item': it['name'],
                         'anchor': ta['regex'], 'dropped_lines': dropped.count('\n')})
+        # R8': head abstraction -- replace the body from its start up to and including an anchor line
+        ha_ = it.get('head_until')
+        if ha_:
+            text = segs.text()
+            m2 = rl.code_mask(text)
+            _, ob2, cb2 = _fn_header(text, m2, it['name'])
+            rx = re.compile(ha_['regex'])
+            pos = ob2 + 1
+            hits = []
+            for line in text[ob2 + 1:cb2].split('\n'):
+                if line.strip() and rx.search(line):
+                    hits.append(pos + len(line))
+                pos += len(line) + 1
+            kk = ha_.get('occurrence', 1)
+            if len(hits) < kk:
+                raise LostAnchor('fn %s: R8 head anchor /%s/ occurrence %d not found' % (it['name'], ha_['regex'], kk))
+            cut = hits[kk - 1]
+            dropped = text[ob2 + 1:cut]
+            segs.replace(ob2 + 1, cut, '\n' + ha_['replacement'], 'rewrite', 'R8 head abstraction')
+            log.append({'rule': "R8' head abstraction: body up to and including the anchor line replaced by an opaque call (result named by an uninterpreted spec function)", 'item': it['name'],
+                        'anchor': ha_['regex'], 'dropped_lines': dropped.count('\n')})
         # rewrites (single line, regex)
         for rw in spec.get('rewrites', []):
             if 'only' in rw and it['name'] not in rw['only']:
